@@ -61,19 +61,35 @@ func C08(c *core.Ctx) {
 				continue
 			}
 			// operands
-			a := ld.Resolve(core.RecvExpr(call), 3)
-			b := ld.Resolve(call.Args[0], 3)
+			a := core.RecvExpr(call)
+			b := call.Args[0]
 			isHeaderDigest := func(e ast.Expr) bool {
-				r, path := core.FieldPath(info, e)
-				return r == recv && recv != nil && path == "Head.Digest"
-			}
-			isFresh := func(e ast.Expr) bool {
-				cl, ok := ast.Unparen(e).(*ast.CallExpr)
-				if !ok {
+				srcs := valueSources(info, ld, e, 0)
+				if len(srcs) != 1 {
 					return false
 				}
-				fn := core.Callee(info, cl)
-				return fn != nil && digestFn[fn] && core.VarOf(info, core.RecvExpr(cl)) == recv
+				r, path := core.FieldPath(info, srcs[0])
+				return r == recv && recv != nil && path == "Head.Digest"
+			}
+			// every value the operand can hold (nil aside) is a digest computed here and now: the
+			// envelope's digest method on this receiver, or dsig.NewSHA256Digest itself (what it
+			// hashes is judged by R3 in this very function)
+			isFresh := func(e ast.Expr) bool {
+				srcs := valueSources(info, ld, e, 0)
+				for _, src := range srcs {
+					cl, ok := src.(*ast.CallExpr)
+					if !ok {
+						return false
+					}
+					fn := core.Callee(info, cl)
+					if fn == nil {
+						return false
+					}
+					if !(isSHA(fn) || (digestFn[fn] && core.VarOf(info, core.RecvExpr(cl)) == recv)) {
+						return false
+					}
+				}
+				return len(srcs) > 0
 			}
 			ok := (isHeaderDigest(a) && isFresh(b)) || (isHeaderDigest(b) && isFresh(a))
 			c.Ob("C08-R1", key, call.Pos(), ok, "the comparison is not between <receiver>.Head.Digest and a freshly computed <receiver>.Digest()")
@@ -147,7 +163,11 @@ func C08(c *core.Ctx) {
 			sawC14n := false
 			var marshalArg ast.Expr
 			for step := 0; step < 8; step++ {
-				e = ld.Resolve(e, 3)
+				srcs := valueSources(info, ld, e, 0)
+				if len(srcs) != 1 {
+					break
+				}
+				e = srcs[0]
 				cl, ok := ast.Unparen(e).(*ast.CallExpr)
 				if !ok {
 					break
@@ -180,32 +200,129 @@ func C08(c *core.Ctx) {
 	if fd := p.Func("dsig", "", "NewSHA256Digest"); fd != nil {
 		info := fd.Pkg.TypesInfo
 		param := fd.Obj.Type().(*types.Signature).Params().At(0)
+		ld := core.NewLocalDefs(info, fd.Decl.Body)
+		// the sum: sha256.Sum256(data), or h.Sum(nil) of a hasher h := sha256.New() that was
+		// written exactly once, unconditionally and before, with data
+		var sumExprs []ast.Expr
+		ok := false
+		why := "no SHA-256 sum of the data parameter found"
 		sums := core.CallsTo(info, fd.Decl.Body, func(f *types.Func) bool { return core.IsFunc(f, "crypto/sha256", "", "Sum256") })
-		ok := len(sums) == 1 && core.VarOf(info, sums[0].Args[0]) == param
-		c.Ob("C08-R3", fd.Name()+"#sum-input", fd.Decl.Pos(), ok, "sha256.Sum256 is not applied to the whole data parameter")
-		// the value returned derives from the sum
-		okv := false
-		if ok {
-			ld := core.NewLocalDefs(info, fd.Decl.Body)
+		news := core.CallsTo(info, fd.Decl.Body, func(f *types.Func) bool { return core.IsFunc(f, "crypto/sha256", "", "New") })
+		switch {
+		case len(sums) == 1 && len(news) == 0:
+			ok = core.VarOf(info, sums[0].Args[0]) == param
+			why = "sha256.Sum256 is not applied to the whole data parameter"
+			sumExprs = append(sumExprs, sums[0])
+		case len(sums) == 0 && len(news) == 1:
+			// the hasher variable
+			var h *types.Var
 			ast.Inspect(fd.Decl.Body, func(n ast.Node) bool {
-				kv, isKV := n.(*ast.KeyValueExpr)
-				if !isKV {
-					return true
-				}
-				if id, isID := kv.Key.(*ast.Ident); isID && id.Name == "Value" {
-					ast.Inspect(kv.Value, func(m ast.Node) bool {
-						if id2, isID2 := m.(*ast.Ident); isID2 {
-							if v := core.VarOf(info, id2); v != nil {
-								if d, has := ld.Before(v, id2.Pos()); has && d.RHS == ast.Expr(sums[0]) {
-									okv = true
-								}
-							}
-						}
-						return true
-					})
+				if as, isAs := n.(*ast.AssignStmt); isAs && len(as.Lhs) == 1 && len(as.Rhs) == 1 && ast.Unparen(as.Rhs[0]) == ast.Expr(news[0]) {
+					h = core.VarOf(info, as.Lhs[0])
 				}
 				return true
 			})
+			if h == nil || len(ld.All(h)) != 1 {
+				why = "the hasher made by sha256.New is not kept in one local variable"
+				break
+			}
+			var writes, finals []*ast.CallExpr
+			other := false
+			ast.Inspect(fd.Decl.Body, func(n ast.Node) bool {
+				switch x := n.(type) {
+				case *ast.CallExpr:
+					if se, isSel := ast.Unparen(x.Fun).(*ast.SelectorExpr); isSel && core.VarOf(info, se.X) == h {
+						switch se.Sel.Name {
+						case "Write":
+							writes = append(writes, x)
+						case "Sum":
+							finals = append(finals, x)
+						default:
+							other = true // Reset, WriteString through an interface, …
+						}
+						return true
+					}
+					for _, a := range x.Args {
+						if core.VarOf(info, a) == h {
+							other = true // handed to something else that may write to it
+						}
+					}
+				}
+				return true
+			})
+			switch {
+			case other:
+				why = "the hasher is used in ways other than one Write and one Sum"
+			case len(writes) != 1 || len(writes[0].Args) != 1 || core.VarOf(info, writes[0].Args[0]) != param:
+				why = "the hasher is not written exactly once with the whole data parameter"
+			case len(finals) != 1 || len(finals[0].Args) != 1 || !core.IsNil(info, finals[0].Args[0]):
+				why = "the sum is not taken exactly once as h.Sum(nil)"
+			default:
+				// the write stands directly in the function body, before the statement holding the sum
+				wi, si := -1, -1
+				for i, st := range fd.Decl.Body.List {
+					if st.Pos() <= writes[0].Pos() && writes[0].End() <= st.End() {
+						switch st.(type) {
+						case *ast.ExprStmt, *ast.AssignStmt:
+							wi = i
+						}
+					}
+					if st.Pos() <= finals[0].Pos() && finals[0].End() <= st.End() {
+						si = i
+					}
+				}
+				ok = wi >= 0 && si > wi
+				why = "the write of the data does not stand unconditionally before the sum is taken"
+				sumExprs = append(sumExprs, finals[0])
+			}
+		case len(sums)+len(news) > 1:
+			why = "more than one SHA-256 computation"
+		}
+		c.Ob("C08-R3", fd.Name()+"#sum-input", fd.Decl.Pos(), ok, why)
+		// the value returned derives from the sum: the Value of the digest is hex.EncodeToString
+		// of the sum (sliced or not), directly or through locals
+		okv := false
+		if ok {
+			fromSum := func(e ast.Expr) bool {
+				srcs := valueSources(info, ld, e, 0)
+				if len(srcs) != 1 {
+					return false
+				}
+				cl, isCall := srcs[0].(*ast.CallExpr)
+				if !isCall || !core.IsFunc(core.Callee(info, cl), "encoding/hex", "", "EncodeToString") || len(cl.Args) != 1 {
+					return false
+				}
+				arg := ast.Unparen(cl.Args[0])
+				if se, isSlice := arg.(*ast.SliceExpr); isSlice && se.Low == nil && se.High == nil {
+					arg = ast.Unparen(se.X)
+				}
+				as := valueSources(info, ld, arg, 0)
+				return len(as) == 1 && as[0] == sumExprs[0]
+			}
+			nVal := 0
+			okAllVals := true
+			ast.Inspect(fd.Decl.Body, func(n ast.Node) bool {
+				switch x := n.(type) {
+				case *ast.KeyValueExpr:
+					if id, isID := x.Key.(*ast.Ident); isID && id.Name == "Value" {
+						nVal++
+						if !fromSum(x.Value) {
+							okAllVals = false
+						}
+					}
+				case *ast.AssignStmt:
+					for i, l := range x.Lhs {
+						if f := core.FieldOf(info, l); f != nil && f.Name() == "Value" && i < len(x.Rhs) && len(x.Lhs) == len(x.Rhs) {
+							nVal++
+							if !fromSum(x.Rhs[i]) {
+								okAllVals = false
+							}
+						}
+					}
+				}
+				return true
+			})
+			okv = nVal > 0 && okAllVals
 		}
 		c.Ob("C08-R3", fd.Name()+"#value-from-sum", fd.Decl.Pos(), okv, "the digest Value does not derive from the SHA-256 sum")
 	} else {
@@ -322,6 +439,24 @@ func schemaObjectRule(c *core.Ctx, rule string) {
 	data := fd.Obj.Type().(*types.Signature).Params().At(0)
 	n := 0
 	okAll := true
+	ld := core.NewLocalDefs(info, fd.Decl.Body)
+	// a local defined once stands for its definition
+	resolve := func(e ast.Expr) ast.Expr {
+		e = ast.Unparen(e)
+		for i := 0; i < 3; i++ {
+			v := core.VarOf(info, e)
+			if v == nil || v.IsField() {
+				break
+			}
+			ds := ld.All(v)
+			if len(ds) != 1 || ds[0].RHS == nil {
+				break
+			}
+			e = ast.Unparen(ds[0].RHS)
+		}
+		return e
+	}
+	schemaVars := map[*types.Var]bool{} // locals stored into the Schema field
 	ast.Inspect(fd.Decl.Body, func(m ast.Node) bool {
 		as, ok := m.(*ast.AssignStmt)
 		if !ok {
@@ -336,8 +471,11 @@ func schemaObjectRule(c *core.Ctx, rule string) {
 			if len(as.Rhs) == len(as.Lhs) {
 				rhs = as.Rhs[i]
 			}
+			if v := core.VarOf(info, rhs); v != nil && !v.IsField() {
+				schemaVars[v] = true
+			}
 			fromData := false
-			if call, ok := ast.Unparen(rhs).(*ast.CallExpr); ok {
+			if call, ok := resolve(rhs).(*ast.CallExpr); ok {
 				for _, a := range call.Args {
 					if core.VarOf(info, a) == data {
 						fromData = true
@@ -367,9 +505,13 @@ func schemaObjectRule(c *core.Ctx, rule string) {
 		if !ok || len(as.Lhs) != 1 || !core.IsFieldOfVar(info, as.Lhs[0], recv, "payload") {
 			return true
 		}
-		if call, ok := ast.Unparen(as.Rhs[0]).(*ast.CallExpr); ok {
-			if core.IsFieldOfVar(info, core.RecvExpr(call), recv, "Schema") {
+		if call, ok := resolve(as.Rhs[0]).(*ast.CallExpr); ok && core.RecvExpr(call) != nil {
+			r := core.RecvExpr(call)
+			if core.IsFieldOfVar(info, r, recv, "Schema") {
 				okPayload = true
+			}
+			if v := core.VarOf(info, r); v != nil && schemaVars[v] && len(ld.All(v)) == 1 {
+				okPayload = true // the very value stored in the Schema field
 			}
 		}
 		return true
